@@ -100,17 +100,12 @@ fn err_coq(code: u32) -> &'static str {
 struct Known {
     /// the pattern is in the F31 class
     f31: bool,
-    /// a complemented bracket expression whose members are all multi-character:
-    /// the emitted class is the unclosed `[^]` (outside the model's domain; a
-    /// remaining deviation of the same family, reported, never generated)
-    outside_model: bool,
 }
 
 fn classify(ast: &Ast) -> Known {
     let mut k = Known::default();
     for a in ast.atoms.iter() {
         if let Atom::Bracket(b) = a {
-            let mut all_multi = !b.items.is_empty();
             for it in &b.items {
                 let multi = match it {
                     BracketItem::Atom(BracketAtom::CollatingSymbol(v))
@@ -120,10 +115,6 @@ fn classify(ast: &Ast) -> Known {
                 if multi && !b.complement {
                     k.f31 = true;
                 }
-                all_multi &= multi;
-            }
-            if b.complement && all_multi {
-                k.outside_model = true;
             }
         }
     }
@@ -273,10 +264,6 @@ struct PatStats {
 fn emit_pat(w: &mut CasesWriter, _args: &Args, src: &str, esc: bool, texts: &Texts, configs: &[Cfg], stream: &str) {
     let pcs: Vec<PatternChar> = if esc { with_escape(src).collect() } else { without_escape(src).collect() };
     let k = classify(&Ast::new(pcs.clone()));
-    if k.outside_model {
-        w.count("skipped:complement-of-only-multichar-symbols");
-        return;
-    }
     if k.f31 {
         let (prefix, rest): (Vec<Cfg>, Vec<Cfg>) = configs.iter().partition(|c| c.ab && !c.ae);
         emit_pat_tagged(w, src, esc, texts, &rest, &[], stream);
@@ -538,6 +525,193 @@ fn random_texts(r: &mut Rng, src: &str, n: usize) -> Vec<String> {
     out
 }
 
+// ---------------------------------------------------------------- stream 3: the regex crate itself
+
+/// A raw regex string through the real `regex` crate with the settings of
+/// yash-fnmatch's lib.rs (`dot_matches_new_line(true)`, `swap_greed`), versus
+/// the model's `parse_rx` + `bt`: validates the assumed external semantics
+/// directly.
+fn emit_rx(w: &mut CasesWriter, src: &str, lazy: bool, texts: &Texts, stream: &str) {
+    let built = regex::RegexBuilder::new(src).dot_matches_new_line(true).swap_greed(lazy).build();
+    let all = texts.all();
+    let mut f0 = vec![];
+    let mut f1 = vec![];
+    if let Ok(re) = &built {
+        for (i, t) in all.iter().enumerate() {
+            if let Some(m) = re.find_at(t, 0) {
+                let (a, b) = char_range(t, m.range());
+                f0.push(format!("({}, {}, {})", i, a, b));
+            }
+            if let Some(c) = t.chars().next() {
+                if let Some(m) = re.find_at(t, c.len_utf8()) {
+                    let (a, b) = char_range(t, m.range());
+                    f1.push(format!("({}, {}, {})", i, a, b));
+                }
+            }
+        }
+    }
+    let nl = |v: &Vec<String>| if v.is_empty() { "nil".to_string() } else { format!("[{}]%N", v.join("; ")) };
+    let term = format!(
+        "(CRx {} {} {} {} {} {})",
+        coq::s(src),
+        coq::b(lazy),
+        coq::b(built.is_ok()),
+        texts.coq(),
+        nl(&f0),
+        nl(&f1)
+    );
+    let json = format!(
+        "{{\"stream\":{},\"regex\":{},\"swap_greed\":{},\"compiled\":{},\"texts\":{},\"matches\":\"{}/{}\"}}",
+        json_str(stream),
+        json_str(src),
+        lazy,
+        built.is_ok(),
+        json_str(&texts.show()),
+        f0.len(),
+        all.len()
+    );
+    w.count(&format!("stream:{stream}"));
+    w.count(if built.is_ok() { "regex:compiled" } else { "regex:rejected" });
+    let key = if built.is_ok() && !f0.is_empty() && f0.len() < all.len() { Some(format!("rx|{src}|{lazy}")) } else { None };
+    w.push(&term, &json, &[], key);
+}
+
+/// One member of a regex class, inside the modelled subset (never two of
+/// `- & ~` in a row, which would be a set operator).
+fn random_class(r: &mut Rng, depth: usize) -> String {
+    let plain = ['a', 'b', 'c', 'x', '0', '9', 'Z', '.', '*', '+', '?', '(', ')', '|', '{', '}', '$', ':', '=', '!', '#', ' ', 'é', 'あ'];
+    let escd = ['\\', ']', '[', '^', '-', '&', '~', '.', '*'];
+    let mut s = String::from("[");
+    if r.chance(1, 3) {
+        s.push('^');
+    }
+    match r.below(8) {
+        0 => s.push(']'),
+        1 => s.push('-'),
+        _ => {}
+    }
+    let n = r.below(4) + if s.ends_with('[') || s.ends_with('^') { 1 } else { 0 };
+    let prim = |r: &mut Rng| -> String {
+        if r.chance(1, 4) { format!("\\{}", r.pick(&escd)) } else { r.pick(&plain).to_string() }
+    };
+    for _ in 0..n {
+        match r.below(12) {
+            0..=4 => s.push_str(&prim(r)),
+            5..=6 => {
+                let a = *r.pick(&['a', '0', 'A', ' ', 'x', 'é', 'z']);
+                let b = *r.pick(&['c', '9', 'Z', '~', 'z', 'あ', 'a']);
+                s.push_str(&format!("{a}-{b}"));
+            }
+            7 => s.push_str(&format!("[:{}:]", r.pick(&CLASS_NAMES))),
+            8 => s.push_str(&format!("[:^{}:]", r.pick(&["alpha", "digit", "space", "punct", "zzz"]))),
+            9 if depth < 2 => s.push_str(&random_class(r, depth + 1)),
+            10 => s.push(*r.pick(&['&', '~', '^'])),
+            _ => s.push_str(&prim(r)),
+        }
+        // keep a following single - & ~ from pairing with this one
+        if s.ends_with('&') || s.ends_with('~') || (s.ends_with('-') && !s.ends_with("\\-")) {
+            s.push('a');
+        }
+    }
+    if r.chance(1, 10) {
+        s.push('-');
+    }
+    if !r.chance(1, 15) {
+        s.push(']');
+    } else if s.ends_with(']') {
+        // left unclosed: do not look closed to the caller
+        s.push('a');
+    }
+    s
+}
+
+/// A regex string of the syntax subset the translation can emit (plus
+/// malformed variants the crate must reject).
+fn random_regex(r: &mut Rng) -> String {
+    let plain = ['a', 'b', 'c', 'x', '0', '-', '&', '~', '#', ':', '=', '!', ' ', ',', 'é', 'あ', '\n'];
+    let escd = ['\\', '.', '+', '*', '?', '(', ')', '|', '[', ']', '{', '}', '^', '$', '-', '&', '~', '#', '!', ':'];
+    let mut s = String::new();
+    if r.chance(1, 3) {
+        s.push_str("\\A");
+    }
+    let n = r.below(6);
+    for _ in 0..n {
+        let mut starable = true;
+        match r.below(14) {
+            0..=3 => s.push(*r.pick(&plain)),
+            4..=5 => s.push_str(&format!("\\{}", r.pick(&escd))),
+            6..=7 => s.push('.'),
+            8..=10 => {
+                s.push_str(&random_class(r, 0));
+                if !s.ends_with(']') {
+                    // an unclosed class swallows whatever follows: stop here
+                    return s;
+                }
+            }
+            11 => {
+                starable = false;
+                s.push_str("(?:");
+                let k = 1 + r.below(3);
+                for j in 0..k {
+                    if j > 0 {
+                        s.push('|');
+                    }
+                    for _ in 0..r.below(3) {
+                        match r.below(5) {
+                            0 => s.push_str(&format!("\\{}", r.pick(&escd))),
+                            1 => {
+                                s.push_str(&random_class(r, 1));
+                                if !s.ends_with(']') {
+                                    return s;
+                                }
+                            }
+                            2 => s.push('.'),
+                            _ => s.push(*r.pick(&plain)),
+                        }
+                    }
+                }
+                if !r.chance(1, 12) {
+                    s.push(')');
+                } else {
+                    // an unclosed group swallows whatever follows: stop here
+                    return s;
+                }
+            }
+            12 => {
+                starable = false;
+                s.push_str(if r.chance(1, 2) { "\\z" } else { "\\A" });
+            }
+            _ => s.push_str(".*"),
+        }
+        if starable && !s.ends_with('*') && r.chance(1, 3) {
+            s.push('*');
+        }
+    }
+    if r.chance(1, 3) {
+        s.push_str("\\z");
+    }
+    if r.chance(1, 40) {
+        s.insert(0, '*');
+    }
+    s
+}
+
+/// Alphabet for the texts of a regex: what it mentions, plus a filler.
+fn regex_alphabet(src: &str) -> Vec<char> {
+    let mut alpha: Vec<char> = vec![];
+    for c in src.chars() {
+        if !"\\[]()?:|*^.Az".contains(c) && !alpha.contains(&c) && alpha.len() < 3 {
+            alpha.push(c);
+        }
+    }
+    for f in ['a', 'b', 'z', '.'] {
+        if !alpha.contains(&f) && alpha.len() < 4 {
+            alpha.push(f);
+        }
+    }
+    alpha
+}
+
 // ---------------------------------------------------------------- stream 2
 
 #[derive(Clone, Copy, Debug, PartialEq)]
@@ -684,17 +858,6 @@ fn parts_chars(parts: &[Part]) -> Vec<PatternChar> {
     pcs
 }
 
-/// false = leave the case out (a pattern outside the model's domain)
-fn shell_in_domain(w: &mut CasesWriter, words: &[&[Part]]) -> bool {
-    for parts in words {
-        if classify(&Ast::new(parts_chars(parts))).outside_model {
-            w.count("skipped:complement-of-only-multichar-symbols");
-            return false;
-        }
-    }
-    true
-}
-
 fn parts_show(parts: &[Part]) -> String {
     let mut setup = String::new();
     let mut n = 0;
@@ -787,10 +950,7 @@ fn subject_for(r: &mut Rng, parts: &[Part]) -> String {
 
 fn emit_case(w: &mut CasesWriter, args: &Args, subject: &str, items: &[(Vec<Vec<Part>>, u8)]) {
     let words: Vec<&[Part]> = items.iter().flat_map(|(pats, _)| pats.iter().map(|p| p.as_slice())).collect();
-    let _ = args;
-    if !shell_in_domain(w, &words) {
-        return;
-    }
+    let _ = (args, &words);
     let tags: &[&str] = &[];
     let mut setup = String::new();
     let mut nvar = 0;
@@ -837,9 +997,6 @@ fn emit_case(w: &mut CasesWriter, args: &Args, subject: &str, items: &[(Vec<Vec<
 
 fn emit_trim(w: &mut CasesWriter, args: &Args, value: &str, parts: &[Part]) {
     let _ = args;
-    if !shell_in_domain(w, &[parts]) {
-        return;
-    }
     let mut setup = String::new();
     let mut nvar = 0;
     let (pt, ac) = render_word(parts, &mut setup, &mut nvar);
@@ -907,7 +1064,10 @@ fn main() {
     let std_fill = ['a', 'b', 'c', 'd', 'e', 'f'];
 
     // ---- corpus: patterns that mattered (F2, F3, quirks of the bracket grammar)
-    let corpus: [(&str, bool); 70] = [
+    let corpus: [(&str, bool); 73] = [
+        ("[![.ch.]]", false),
+        ("[![.ch.]][a]", false),
+        ("a[^[=ab=][.cd.]]*", false),
         ("[![.é.]a]", false),
         ("[![.é.]]", false),
         ("[![=あ=]]x", false),
@@ -1065,8 +1225,49 @@ fn main() {
         emit_pat(&mut w, &args, src, esc, &Texts::Enum(vec!['.', 'a'], 3), &period_configs, "period");
     }
 
+    // ---- the regex crate against its model: what the translation emits for
+    // short patterns, and random strings of the same syntax
+    {
+        let srcs: Vec<String> = if args.thorough() {
+            (1..=3).flat_map(|n| strings_of_len(&syms, n)).collect()
+        } else {
+            (0..200u64)
+                .map(|k| {
+                    let mut r = rng.fork(7_000 + k);
+                    let n = 1 + r.below(6);
+                    (0..n).map(|_| *r.pick(&syms)).collect()
+                })
+                .collect()
+        };
+        for (k, src) in srcs.iter().enumerate() {
+            let pcs: Vec<PatternChar> = with_escape(src).collect();
+            let c = CONFIGS[k % 6];
+            if let Ok(rx) = Ast::new(pcs).to_regex(&c.real()) {
+                let alpha = text_alphabet(src, 3, &std_fill);
+                emit_rx(&mut w, &rx, c.sm, &Texts::Enum(alpha, 3), "regex-emitted");
+            }
+        }
+        for k in 0..args.scale(400, 12000) {
+            let mut r = rng.fork(8_000_000 + k as u64);
+            let rx = random_regex(&mut r);
+            let alpha = regex_alphabet(&rx);
+            emit_rx(&mut w, &rx, r.chance(1, 2), &Texts::Enum(alpha, 3), "regex-random");
+        }
+        for (rx, lazy) in [
+            ("[^]", false), ("[^]a]", false), ("[]a]*", true), ("[a-]", false), ("[-a]", false), ("[--a]", false),
+            ("[a&b]", false), ("[a[^b]c]", false), ("[[:^alpha:]x]", false), ("[[:foo:]]", false), ("[z-a]", false),
+            ("(?:ab|a)b", false), ("(?:a|ab)b", true), ("(?:|a)b", false), ("*a", false),
+            ("\\Aa.*\\z", true), ("a\\Ab", false), ("[^\\]]x", false), ("[\\z]", false), ("(?:a", false), ("[a", false),
+            (".*a.*", true), ("x*[ab]*b", false), ("[a-c-e]", false),
+        ] {
+            emit_rx(&mut w, rx, lazy, &Texts::Enum(regex_alphabet(rx), 3), "regex-corpus");
+        }
+    }
+
     // ---- the shell: case and the four trim forms
-    let shell_corpus: [(&str, &str); 16] = [
+    let shell_corpus: [(&str, &str); 18] = [
+        ("x", "[![.ch.]]"),
+        ("xyz", "[![.ch.]]"),
         ("chh", "[[.ch.]c]h"),
         ("ab", "[[.a.][.ab.]]"),
         ("é", "[![.é.]a]"),
@@ -1102,6 +1303,44 @@ fn main() {
         emit_trim(&mut w, &args, v, &[Part::Var(p.to_string(), false)]);
         emit_trim(&mut w, &args, v, &[Part::Var(p.to_string(), true)]);
     }
+    // an item with several patterns: a pattern that does not compile is skipped,
+    // the other alternatives of the item are still tried.  Every kind of invalid
+    // pattern x position of the invalid alternative x where the matching one is.
+    const INVALID: [&str; 7] =
+        ["[[:foo:]]", "[[..]]", "[[==]]", "[[:digit:]-9]", "[a-[:alpha:]]", "[z-a]", "[[:nosuchclass:]]*"];
+    for (k, bad) in INVALID.iter().enumerate() {
+        let b = || seg_str(bad);
+        let star = || vec![(vec![seg_str("*")], 0u8)];
+        let mut layouts: Vec<Vec<(Vec<Vec<Part>>, u8)>> = vec![
+            vec![(vec![b(), seg_str("a")], 0)],                       // invalid | match
+            vec![(vec![seg_str("a"), b()], 0)],                       // match | invalid
+            vec![(vec![seg_str("b"), b(), seg_str("a")], 0)],         // miss | invalid | match
+            vec![(vec![b(), seg_str("b"), seg_str("?")], 0)],         // invalid | miss | match
+            vec![(vec![b(), b(), seg_str("[a]")], 0)],                // invalid | invalid | match
+            vec![(vec![b(), seg_str("b")], 0)],                       // invalid | miss  -> next item
+            vec![(vec![b()], 0)],                                     // invalid alone   -> next item
+            vec![(vec![seg_str("b")], 0), (vec![b(), seg_str("a")], 1), (vec![seg_str("zzz")], 0)], // then ;&
+            vec![(vec![b(), seg_str("a")], 2), (vec![b(), seg_str("*")], 0)],                         // then ;;&
+        ];
+        for l in layouts.iter_mut() {
+            l.extend(star());
+        }
+        for l in &layouts {
+            emit_case(&mut w, &args, "a", l);
+        }
+        // the same through a variable and with quoting inside the valid alternative
+        emit_case(
+            &mut w,
+            &args,
+            "a",
+            &[(vec![vec![Part::Var(bad.to_string(), false)], vec![Part::Seg('a', Q::Single)]], 0), (vec![seg_str("*")], 0)],
+        );
+        // an invalid pattern in the trim forms leaves the value alone
+        if k < 4 {
+            emit_trim(&mut w, &args, "a9", &seg_str(bad));
+        }
+    }
+
     let nshell = args.scale(300, 3000);
     for k in 0..nshell {
         let mut r = rng.fork(900_000 + k as u64);
@@ -1110,8 +1349,18 @@ fn main() {
         let mut items = vec![];
         let mut all_parts = vec![];
         for _ in 0..nitems {
-            let npats = 1 + r.below(2);
-            let pats: Vec<Vec<Part>> = (0..npats).map(|_| random_parts(&mut r)).collect();
+            let npats = 1 + r.below(3);
+            let pats: Vec<Vec<Part>> = (0..npats)
+                .map(|_| {
+                    if r.chance(1, 5) {
+                        // an alternative that does not compile
+                        let bad = *r.pick(&["[[:foo:]]", "[[..]]", "[[==]]", "[[:digit:]-9]", "[a-[:alpha:]]", "[z-a]", "x[[:bar:]]*"]);
+                        if r.chance(1, 4) { vec![Part::Var(bad.to_string(), false)] } else { seg_str(bad) }
+                    } else {
+                        random_parts(&mut r)
+                    }
+                })
+                .collect();
             all_parts.extend(pats.iter().flatten().cloned());
             let cont = match r.below(10) {
                 0 => 1,
